@@ -214,6 +214,19 @@ func Check(res *Result) *ReadBack {
 			nums = append(nums, n)
 		}
 	}
+	if len(nums) > 2000 {
+		// a huge batch: the Reader decodes the whole object stream for every Get, so look at a
+		// sample - the ends, the places where the batch is split, and every 101st number
+		var thin []uint32
+		last := nums[len(nums)-1]
+		for _, n := range nums {
+			d1, d2 := int64(n)%10000, int64(last)-int64(n)
+			if n < 40 || n%101 == 0 || d1 < 15 || d1 > 9985 || d2 < 60 {
+				thin = append(thin, n)
+			}
+		}
+		nums = thin
+	}
 	probes := 0
 	for _, n := range nums {
 		ref := pdf.NewReference(n, gens[n])
